@@ -54,14 +54,16 @@ def conc_model(ctx):
     Returns the file with the pairs it prints for the forced schedules."""
     r = ctx.mc("ElectricConc", "ElectricConc.cfg", consts={"Dev": "{}"}, workers=1, timeout=600, deadlock=False)
     pairs = r.cases()
-    if len(pairs) < 12:
+    if len(pairs) < 14:
         raise vf.Inconclusive("ElectricConc printed only %d cases\n%s" % (len(pairs), r.out[-2000:]))
-    bad = ctx.tlc("ElectricConc", "ElectricConc.cfg", consts={"Dev": '{"update-rlock"}'}, workers=1, timeout=600,
-                  deadlock=False)
-    if "AtMostOneNormal" not in bad.violated:
-        raise vf.Inconclusive("UpdateMode on a read lock is not refuted by the concurrent model\n%s" % bad.out[-2000:])
-    ctx.cov.setdefault("deviations_shown_on_model", {})["update-rlock"] = {"violates": "AtMostOneNormal",
-                                                            "states_to_counterexample": bad.distinct}
+    for dev, inv in (("update-rlock", "AtMostOneNormal"), ("change-unlocked-commit", "ActiveExists")):
+        bad = ctx.tlc("ElectricConc", "ElectricConc.cfg", consts={"Dev": '{"%s"}' % dev}, workers=1, timeout=600,
+                      deadlock=False)
+        if inv not in bad.violated:
+            raise vf.Inconclusive("deviation %s is not refuted by the concurrent model (%s)\n%s"
+                                  % (dev, inv, bad.out[-2000:]))
+        ctx.cov.setdefault("deviations_shown_on_model", {})[dev] = {"violates": inv,
+                                                                    "states_to_counterexample": bad.distinct}
     return ctx.write_ndjson("pairs.ndjson", pairs), len(pairs)
 
 
